@@ -197,6 +197,8 @@ def rule_Y7d(ctx, rule: str = "Y7") -> None:
                     if isinstance(a, ast.Assign) and any(isinstance(t, ast.Name) and t.id == x.id for t in a.targets):
                         exprs.append(a.value)
         calls = {ast.unparse(c.func) for e in exprs for c in ast.walk(e) if isinstance(c, ast.Call)}
+        # map(F, names): F is applied to every name
+        calls |= {ast.unparse(c.args[0]) for e in exprs for c in ast.walk(e) if isinstance(c, ast.Call) and ast.unparse(c.func) == "map" and c.args and isinstance(c.args[0], (ast.Name, ast.Attribute))}
         raw_names = any(isinstance(a, ast.Attribute) and a.attr == "name" for e in exprs for a in ast.walk(e))
         if namers & calls or any("py_name" in ast.unparse(e) for e in exprs):
             ctx.proved(rule, f"{q}:builtins_types:emitted-names", mod.loc(n), ",".join(sorted(namers & calls)) or "py_name")
